@@ -5,9 +5,12 @@ insert / delete / replace_range / replace_range_with / delete_range emits is (a)
 as well (same document: exact tie of apply) and (b) checked with the Lean monitor `respects`
 (lean/PM/Monitor.lean): its range differs from the requested one only by structural tokens and what it
 inserts is an in-order subsequence of the requested content. Props/C11.lean proves what that implies.
-Planning code in front of the Fitter (exact tie, lean/PM/RangeOps.lean via harness/rangeplan.py): `fits_trivially`, the
-answer of `replace_step` as far as no Fitter is involved, and the range `delete_range` hands to `Transform.delete`
-(observed through a Transform subclass in this process) — Props/C11.lean proves `respects` for these instead of monitoring it.
+Planning code (exact ties via harness/rangeplan.py): `fits_trivially`, the answer of `replace_step` as far as no Fitter
+is involved, and the range `delete_range` hands to `Transform.delete` (lean/PM/RangeOps.lean; observed through a Transform
+subclass in this process); the Fitter itself — the step `replace_step` emits, exactly, on the bundled-family schemas, and the
+step `delete_range` records (lean/PM/Fitter.lean), with the `fill_before` / `find_wrapping` choices it depends on
+(lean/PM/FillOrder.lean).  Props/C11.lean proves `respects` for these models (`fitsTrivially_respects`, `deleteRange_respects`,
+`fit_range`, `fitter_respects`) instead of only monitoring it.
 Search: on the real code: no exception on the bundled-family schemas (totality — decided by search
 only), `check()` + the independent validator, and content preservation computed from to_json().
 """
@@ -98,6 +101,9 @@ def run(ctx):
                 if bundled:
                     # the Fitter itself (lean/PM/Fitter.lean): the step replace_step emits for the request, exactly
                     rangeplan.tie_replace_step(ctx, info, d, f, t, req, reqs, metas)
+                    if name in ("delete_range", "delete"):
+                        # delete_range as a whole (widening + Fitter): the recorded step, exactly
+                        rangeplan.tie_delete_range_step(ctx, info, d, f, t, reqs, metas)
                 tr = Transform(d)
                 st, val_, added = ops.run_op(tr, thunk)
                 replay = {"schema": info.name, "doc": d.to_json(), **ops.describe(name, args)}
@@ -159,7 +165,7 @@ def run(ctx):
         rule="a case is (schema, valid document, one replace-family operation with in-range pair-aligned positions and a "
              "schema-valid slice cut from another document / a valid node); bundled-family schemas (totality) and random "
              "well-founded schemas (validity, content preservation); non-trivial = a step was emitted",
-        level_note="totality ('never raises') is decided by search only: it would need a model of the fitting algorithm with its termination and assertion-freeness")
+        level_note="totality ('never raises') is decided by search only: the fitting algorithm is modelled (lean/PM/Fitter.lean, exact tie) but its termination and assertion-freeness are not proven")
 
 
 if __name__ == "__main__":
